@@ -44,7 +44,7 @@ THOROUGH_N = 25000
 CHUNK = 10
 RULE = ("gen(seed) = base scenario (connect?/window/read_chunk_size knobs, inbound bytes + "
         "arrival segments, 1-6 ops of write/read_bytes/read_into/read_until/read_until_regex/"
-        "read_until_close/peer-consume/later-connect with pauses, recv_cap/send_cap/defer tapes); "
+        "read_until_close/peer-consume/later-connect/owner-cancels-a-pending-future with pauses, recv_cap/send_cap/defer tapes); "
         "expand() = fault-free run + one scenario per close cause x close point (see module doc). "
         "non-trivial = the stream was closed by the enumerated cause (not by the final cleanup "
         "close) AND at least one read/write/connect future was pending at the instant the fd was "
@@ -145,6 +145,11 @@ def gen(rng, tier, index):
             ops.append({"op": "consume", "n": rng.choice([1, window, 50, 5000]), "pause": pause})
         else:
             ops.append({"op": "connect", "pause": pause})
+        if rng.random() < 0.16:
+            # the owner gives up on an operation it started (wait_for timeout, task
+            # cancellation): the future is cancelled, the stream still holds it
+            ops.append({"op": "cancel", "what": rng.choice(["read", "read", "write", "connect"]),
+                        "k": rng.randrange(3), "pause": rng.choice([0, 0, -1, 1])})
     tapes = {}
     if rng.random() < 0.5:
         tapes["recv_cap"] = {"v": [rng.choice([0, 1, 1, 2, 3]) for _ in range(rng.randint(1, 8))],
@@ -224,7 +229,7 @@ def validate(scn):
                 return False
         for op in scn["ops"]:
             if not isinstance(op, dict) or op.get("op") not in ("connect", "write", "read",
-                                                                  "consume"):
+                                                                  "consume", "cancel"):
                 return False
             if op["op"] == "read":
                 kind = op.get("kind")
@@ -301,7 +306,8 @@ def run(scn, full_log=False):
         recs = []  # one per issued read/write/connect
         st = {"peer": None, "sock": None, "stream": None, "sock_errors": [], "fd_closed": False,
               "pulled": 0, "cb": 0, "sent_data": b"", "cleanup": False, "closed_by_cause": False,
-              "pending_kinds": [], "cause_applied": False, "n_recv": 0, "n_send": 0}
+              "pending_kinds": [], "cause_applied": False, "n_recv": 0, "n_send": 0,
+              "cancelled": [], "cancelled_at_close": []}
 
         def snapshot():
             """Called at the instant the stream closes its fd."""
@@ -311,6 +317,7 @@ def run(scn, full_log=False):
             st["closed_by_cause"] = not st["cleanup"]
             sock = st["sock"]
             st["pulled"] = sock.rx.read_total if sock.rx is not None else 0
+            st["cancelled_at_close"] = list(st["cancelled"])
             for r in recs:
                 if r["pac"] is None:
                     f = r["fut"]
@@ -387,12 +394,20 @@ def run(scn, full_log=False):
                 else:
                     peer.close(gap=g)
 
+        def safe_close(where):
+            try:
+                st["stream"].close()
+            except BaseException as e:  # CancelledError is a BaseException
+                env.log.ev("close_raised", type(e).__name__)
+                bad("close.close_raised", f"close() ({where}) raised {type(e).__name__}: {e}",
+                    "close.close_raised/" + type(e).__name__)
+
         def apply_cause():
             stream, peer = st["stream"], st["peer"]
             if cause == "local":
                 st["cause_applied"] = True
                 env.log.ev("cause", "local")
-                stream.close()
+                safe_close("cause")
             elif cause in ("fin", "pclose", "rst"):
                 if peer is None or peer.closed:
                     probe("cause_not_applicable_no_peer")
@@ -496,6 +511,19 @@ def run(scn, full_log=False):
                             probe("peer_consumed_partial")
                     continue
                 closed_now = stream.closed()
+                if kind == "cancel":
+                    what = op.get("what", "read")
+                    cand = [r for r in recs if r["fut"] is not None and not r["fut"].done()
+                            and r["kind"].split(":")[0] == what]
+                    if not cand:
+                        probe("cancel_skipped_nothing_pending")
+                        continue
+                    r = cand[int(op.get("k", 0) or 0) % len(cand)]
+                    r["fut"].cancel()
+                    r["cancelled"] = True
+                    st["cancelled"].append(r["kind"])
+                    env.log.ev("op", j, "cancel", r["i"], r["kind"])
+                    continue
                 if kind == "connect":
                     if not closed_now and (connect_rec is not None or not connect_mode):
                         continue  # connect on a live connected/connecting stream: not legal usage
@@ -505,7 +533,7 @@ def run(scn, full_log=False):
                     recs.append(r)
                     try:
                         r["fut"] = stream.connect((IP, PORT))
-                    except Exception as e:
+                    except BaseException as e:  # a CancelledError may escape from close()
                         r["exc"] = e
                     r["in_call"] = False
                     if not closed_now:
@@ -520,7 +548,7 @@ def run(scn, full_log=False):
                     recs.append(r)
                     try:
                         r["fut"] = stream.write(bytes([65 + j % 26]) * n)
-                    except Exception as e:
+                    except BaseException as e:  # a CancelledError may escape from close()
                         r["exc"] = e
                     r["in_call"] = False
                     env.log.ev("op", j, "write", n, closed_now, type(r["exc"]).__name__)
@@ -529,6 +557,11 @@ def run(scn, full_log=False):
                 if last_read is not None and last_read["fut"] is not None \
                         and not last_read["fut"].done():
                     probe("read_skipped_already_reading")
+                    continue
+                if not closed_now and last_read is not None and last_read.get("cancelled") \
+                        and stream.reading():
+                    # the cancelled read is still the stream's current read
+                    probe("read_skipped_cancelled_read_in_progress")
                     continue
                 if connect_mode and not closed_now and (
                         connect_rec is None or connect_rec["fut"] is None
@@ -553,7 +586,7 @@ def run(scn, full_log=False):
                         r["fut"] = stream.read_until_regex(op["re"].encode("latin1"))
                     else:
                         r["fut"] = stream.read_until_close()
-                except Exception as e:
+                except BaseException as e:
                     r["exc"] = e
                 r["in_call"] = False
                 last_read = r
@@ -569,14 +602,14 @@ def run(scn, full_log=False):
             st["cleanup"] = True
             if not st["fd_closed"]:
                 st["n_recv"], st["n_send"] = sock.n_recv, sock.n_send
-            stream.close()
+            safe_close("cleanup")
             await loop.idle()
             peer = st["peer"]
             if peer is not None and not peer.closed:
                 peer.close()
             # every future must be settled now: wait for each (a hang = never settled)
             for r in recs:
-                if r["fut"] is not None:
+                if r["fut"] is not None and not r["fut"].cancelled():
                     try:
                         await r["fut"]
                     except Exception:
@@ -608,9 +641,11 @@ def run(scn, full_log=False):
             e = r["exc"]
             if e is None:
                 f = r["fut"]
-                if not f.done():
+                if f is None or not f.done():
                     return ("pending",)
                 if f.cancelled():
+                    if r.get("cancelled"):
+                        return ("cancelled",)
                     return ("exc", asyncio.CancelledError())
                 e = f.exception()
                 if e is None:
@@ -651,6 +686,7 @@ def run(scn, full_log=False):
                         f"close.wrong_exception/{k0}/{type(e).__name__}")
 
         c = 0  # cursor: bytes of ``sent`` handed to successful reads so far
+        dirty = False  # a cancelled read may have consumed bytes nobody received
         for r in recs:
             res = result_of(r)
             kind = r["kind"]
@@ -658,6 +694,12 @@ def run(scn, full_log=False):
             outcome.append((r["i"], kind, r["closed_at_issue"], bool(r["pac"]), res[0],
                             len(res[1]) if res[0] == "ok" and isinstance(res[1], bytes) else None))
             if res[0] == "pending":
+                continue
+            if res[0] == "cancelled":
+                # settled by its owner; the stream may still complete it internally and
+                # consume bytes for it: from here on the cursor is only a lower bound
+                if k0 == "read":
+                    dirty = True
                 continue
             pac = bool(r["pac"])
             later = r["closed_at_issue"]
@@ -727,6 +769,13 @@ def run(scn, full_log=False):
                     got = val
                 ln = len(got)
                 when = "later" if later else ("at_close" if pac else "open")
+                if dirty:
+                    if rk == "close" and not later and st["fd_closed"]:
+                        jx = max(c, P - ln)  # everything that was left: a suffix of the pulled
+                    else:
+                        jx = sent.find(got, c)
+                    if jx >= 0:
+                        c = jx
                 if got != sent[c:c + ln] or (st["fd_closed"] and c + ln > P):
                     bad("close.read_wrong_data",
                         f"{kind} (op {r['i']}, {when}) returned {got[:16]!r} but the next bytes the "
@@ -775,7 +824,7 @@ def run(scn, full_log=False):
                 probe("close_with_buffered_unconsumed")
             call_raised = (res[0] == "exc" and r["exc"] is res[1] and isinstance(res[1], OSError)
                            and exp_errno is not None and res[1].errno == exp_errno)
-            if sat is not None:
+            if sat is not None and not dirty:
                 if call_raised and sat == 0:
                     # the call itself raised the injected error and nothing was buffered
                     probe("call_raised_with_nothing_buffered")
@@ -807,6 +856,11 @@ def run(scn, full_log=False):
         for m, e in env.loop_errors:
             if e == "InvalidStateError":
                 bad("close.double_completion", f"loop error {m} {e}")
+            elif (e == "CancelledError" and "write.<locals>.<lambda>" in str(m)
+                  and "write" in st["cancelled"]):
+                # write() attaches `lambda f: f.exception()` to its future, which raises when
+                # the owner cancels that future: noise at cancel time, not part of closing
+                probe("write_cancel_done_callback_raised")
             else:
                 bad("close.loop_error", f"{m} {e}", f"close.loop_error/{e}")
         for rec in env.errors():
@@ -818,6 +872,12 @@ def run(scn, full_log=False):
             probe("pending_at_close_" + k.replace(":", "_"))
         if len(set(x.split(":")[0] for x in st["pending_kinds"])) >= 2:
             probe("pending_read_and_write_or_connect_together")
+        for k in st["cancelled"]:
+            probe("owner_cancelled_" + k.split(":")[0])
+        if st["closed_by_cause"] and st["cancelled_at_close"]:
+            probe("closed_after_owner_cancel")
+            if st["pending_kinds"]:
+                probe("closed_after_owner_cancel_with_other_pending")
         if st["closed_by_cause"]:
             probe("closed_by_cause_" + cause)
         if cause not in ("none",) and not st["closed_by_cause"]:
